@@ -85,6 +85,9 @@ class CallMixin:
                 tt = z3.simplify(z3.IntVal(TYPEBASE) + z3.Select(self.st.typeof, Val.r(obj)))
                 self.st.ghost.setdefault("type_terms", []).append(tt)
                 return VRef(tt)
+            hm = self.st.ghost.get("host_methods", {}).get(attr)
+            if hm is not None:
+                return self.st.register(BoundMethod(hm, obj))
             res = self.host_op("getattr_" + attr, obj, node)
             if attr == "__dict__":
                 # trusted: an instance's attribute dictionary, when it exists, is an exact dict owned by the host
@@ -108,6 +111,11 @@ class CallMixin:
                 return self.st.register(BoundMethod(BuiltinFn("dict." + attr), obj))
             return self._attr_error(node, default)
         ci = self.table.info.get(cid)
+        if ci is not None:
+            from .contract import CLASS_INVARIANTS
+            if ci.name in CLASS_INVARIANTS and not self.st.ghost.get("_constructing", {}).get(str(obj)):
+                # visible-state semantics: every existing object of a class satisfies the class invariant
+                self.assume_invariant(ci.name, obj)
         if ci is None:
             # extern object classes (Lock, Future, Thread, Event, proto ...)
             if attr in EXTERN_FIELDS.get(nm, ()):
@@ -138,7 +146,9 @@ class CallMixin:
                     return fo
                 if "classmethod" in decos:
                     return self.st.register(BoundMethod(self.pyobj(fo), self.class_term(cid)))
-                return self.st.register(BoundMethod(self.pyobj(fo), obj))
+                # one object per (function, receiver): `x.m is x.m` holds in the model, as `==` does in Python
+                return self.st_register_cached(("bound", fi.key, str(z3.simplify(obj))),
+                                               lambda: BoundMethod(self.pyobj(fo), obj))
             if mem[0] == "classattr":
                 key = ("cls:%d" % mem[2].cid, name)
                 if key in self.st.globals_store:
@@ -485,12 +495,15 @@ class CallMixin:
         # abstract classes cannot be instantiated; not needed here
         rid = self.st.alloc(cid)
         obj = VRef(rid)
+        self.st.ghost.setdefault("_constructing", {})[str(obj)] = True
         if cls.closure is not None:
             self.st.registry.setdefault(TYPEBASE + cid, cls)
         init = self.index.lookup_member(ci, "__init__")
         if init is not None and init[0] == "method":
             fo_closure = self.closure_for_class(init[2].cid) or cls.closure
             self.call_function(init[1], fo_closure, [obj] + list(args), kwargs, node, anchor)
+            self.st.ghost["_constructing"][str(obj)] = False
+            self.st.ghost.setdefault("_obj_bounds", {})[str(obj)] = self.st.next_id
             from .contract import CLASS_INVARIANTS
             if ci.name in CLASS_INVARIANTS:
                 # constructed objects satisfy their class invariant in later visible states
